@@ -305,6 +305,15 @@ func init() {
 		"reflect.DeepEqual": simple(func(e *Engine, s *State, a []Value, at ssa.Instruction, _ *ssa.Function) Value {
 			return Sc{e.deepEq(s, a[0], a[1], true, 0)}
 		}),
+		// math/bits.Len on a concrete operand (the generic sorts of package slices compute their
+		// recursion limit from the concrete length)
+		"math/bits.Len": simple(func(e *Engine, s *State, a []Value, at ssa.Instruction, _ *ssa.Function) Value {
+			t := a[0].(Sc).T
+			if !t.IsConst() {
+				panic(engErr("math/bits.Len of a symbolic value"))
+			}
+			return Sc{Idx(t.Val.BitLen())}
+		}),
 		"sort.Slice": func(e *Engine, s *State, f *Frame, x ssa.Value, sf *ssa.Function, a []Value, at ssa.Instruction) ([]*State, bool) {
 			rt := e.rtPkgFns["vfSortSlice"]
 			if rt == nil {
